@@ -79,6 +79,10 @@ extern "C" void h_repeat_value(void) {          // n*v  ==  v v ... v
     CHECK(pa.sval[0] == v && pa.sval[n] == w);
 #endif
     if (n < 3) CHECK(pa.dflt[3] == 1);            // the item after the last written one is defaulted
+    // the repeat count as the last token of the record, and after a first value
+    std::string c = std::to_string(n) + "*" + v, d, e = w + " " + c, f = w;
+    for (unsigned long i = 0; i < n; ++i) { d += (i ? " " : "") + v; f += " " + v; }
+    CHECK(same(run(pr, c), run(pr, d))); CHECK(same(run(pr, e), run(pr, f)));
 }
 extern "C" void h_repeat_default(void) {        // n*  ==  1* ... 1* ; early end == trailing 1*
     ParserRecord pr = mkrecord(WITHDEF); Env env; ENV = &env;
